@@ -61,16 +61,21 @@ type C16Case struct {
 	// acknowledgement carries PrevErrno and has not been waited for
 	Prev      string `json:"prev,omitempty"`
 	PrevErrno int    `json:"prev_errno,omitempty"`
+	// kind "setfault": a setter in WaitForReply mode whose wait goes wrong: the first receive fails with RecvErrno
+	// (0 = it works), Events unsolicited records come before the acknowledgement, which carries AckErrno
+	RecvErrno int `json:"recv_errno,omitempty"`
+	AckErrno  int `json:"ack_errno,omitempty"`
+	Events    int `json:"events,omitempty"`
 }
 
 func (c C16Case) Describe() string {
-	return fmt.Sprintf("kind=%s setter=%s u32=%d bool=%v nowait=%v prev=%s prev-errno=%d buf(%d)=%x garbage=%x more=%x", c.Kind, c.Setter, c.U32, c.Bool, c.NoWait, c.Prev, c.PrevErrno, len(c.Buf), c.Buf, c.Garbage, c.More) + map[bool]string{true: " reply-before-ack", false: ""}[c.ReplyFirst]
+	return fmt.Sprintf("kind=%s setter=%s u32=%d bool=%v nowait=%v prev=%s prev-errno=%d recv-errno=%d ack-errno=%d events=%d buf(%d)=%x garbage=%x more=%x", c.Kind, c.Setter, c.U32, c.Bool, c.NoWait, c.Prev, c.PrevErrno, c.RecvErrno, c.AckErrno, c.Events, len(c.Buf), c.Buf, c.Garbage, c.More) + map[bool]string{true: " reply-before-ack", false: ""}[c.ReplyFirst]
 }
 
 var setters = []string{"SetPID", "SetRateLimit", "SetBacklogLimit", "SetEnabled", "SetImmutable", "SetFailure", "SetBacklogWaitTime"}
 
 func genC16(t *rapid.T) C16Case {
-	c := C16Case{Kind: rapid.SampledFrom([]string{"set", "set", "seq", "get", "wire", "wire", "many", "getset"}).Draw(t, "kind")}
+	c := C16Case{Kind: rapid.SampledFrom([]string{"set", "set", "seq", "get", "wire", "wire", "many", "getset", "setfault"}).Draw(t, "kind")}
 	if c.Kind == "getset" {
 		// GetStatus with a reply of any length the decoder accepts, then a setter on the same client: what was
 		// learnt from the reply must not change what the setter sends
@@ -96,6 +101,13 @@ func genC16(t *rapid.T) C16Case {
 		c.Bool = rapid.Bool().Draw(t, "bool")
 		c.NoWait = rapid.Bool().Draw(t, "nowait")
 		c.PrevErrno = rapid.SampledFrom([]int{0, 0, int(syscall.EINVAL), int(syscall.EPERM), int(syscall.EBUSY)}).Draw(t, "preverrno")
+	case "setfault":
+		c.Setter = rapid.SampledFrom(setters).Draw(t, "setter")
+		c.U32 = rapid.Uint32Range(0, 9999).Draw(t, "u32")
+		c.Bool = rapid.Bool().Draw(t, "bool")
+		c.RecvErrno = rapid.SampledFrom([]int{int(syscall.ENOBUFS), 0, int(syscall.EBADF), int(syscall.ENOTCONN), int(syscall.EIO), int(syscall.EINTR), int(syscall.ENOMEM)}).Draw(t, "recverrno")
+		c.AckErrno = rapid.SampledFrom([]int{0, int(syscall.EPERM), int(syscall.EEXIST), int(syscall.EINVAL), int(syscall.ENOBUFS), int(syscall.EAGAIN)}).Draw(t, "ackerrno")
+		c.Events = rapid.SampledFrom([]int{0, 0, 1, 3, 12}).Draw(t, "events")
 	case "set":
 		c.Setter = rapid.SampledFrom(setters).Draw(t, "setter")
 		c.U32 = rapid.OneOf(rapid.Uint32(), rapid.SampledFrom([]uint32{0, 1, 2, 3, 64, 8192, 1<<31 - 1, 1 << 31, 1<<32 - 1, 60000})).Draw(t, "u32")
@@ -215,6 +227,36 @@ func propC16(c C16Case) error {
 		}
 		hC16.Class("set-after-unacknowledged-set")
 		hC16.NonTrivial(hx.FP(c.Describe()), c.Describe)
+	case "setfault":
+		// whatever happens to the wait — a receive that fails (a full socket buffer: ENOBUFS), a refusal, records in
+		// between — the command has sent its one request and sends nothing more
+		k := simk.New(7)
+		k.OnSend = func(k *simk.K, s simk.Sent) {
+			if c.RecvErrno != 0 && len(k.Sent) == 1 {
+				k.Fail(syscall.Errno(c.RecvErrno))
+			}
+			for i := 0; i < c.Events; i++ {
+				k.Push(simk.Msg(1300, 0, 0, 0, []byte("audit(1.000:1): x=y")))
+			}
+			k.Push(simk.Ack(s.Seq, c.AckErrno, s.Type))
+		}
+		cl := &libaudit.AuditClient{Netlink: k}
+		err := callSetter(cl, c.Setter, c.U32, c.Bool, libaudit.WaitForReply)
+		what := fmt.Sprintf("%s in WaitForReply mode (first receive fails with errno %d, %d records before the acknowledgement, which carries errno %d; result %v)", c.Setter, c.RecvErrno, c.Events, c.AckErrno, err)
+		if len(k.Sent) != 1 {
+			return fmt.Errorf("%s: %d requests were sent, every Set* command sends exactly one", what, len(k.Sent))
+		}
+		if s := k.Sent[0]; uint32(s.Type) != uapi.A("AUDIT_SET") || len(s.Data) != sizeofStatus || s.Flags != syscall.NLM_F_REQUEST|syscall.NLM_F_ACK {
+			return fmt.Errorf("%s: the command sent type %d, %d bytes, flags %#x", what, s.Type, len(s.Data), s.Flags)
+		}
+		if err == nil && c.AckErrno != 0 {
+			return fmt.Errorf("%s: the kernel refused the request and the command returned nil", what)
+		}
+		hC16.Class("set-with-failing-wait")
+		if c.RecvErrno != 0 && c.RecvErrno != int(syscall.EINTR) && c.RecvErrno != int(syscall.EAGAIN) {
+			hC16.Class("set-with-receive-error")
+			hC16.NonTrivial(hx.FP(c.Describe()), c.Describe)
+		}
 	case "set", "getset":
 		k := simk.New(7)
 		k.OnSend = func(k *simk.K, s simk.Sent) {
